@@ -10,28 +10,28 @@ From PP Require Import Model.C14 Proofs.C14.
 Local Open Scope R_scope.
 
 (* Gluing: sum over the subproblems of the local results with the rows outside
-   faces_in_subgrid zeroed, mapped through l2g_faces, divided by the face repetition
-   count = the one-piece discretisation on every face, for any number of subproblems and
-   any overlap multiplicities -- provided no subproblem after the first takes the
-   "all faces are mine" shortcut, which REPLACES the accumulated sum (see _refuted). *)
-Theorem C14_split_sum_partial :
+   faces_in_subgrid zeroed, mapped through l2g_faces (or added directly in the
+   "all faces are mine" shortcut), divided by the face repetition count = the one-piece
+   discretisation on every face, for any number of subproblems, in any order, and any
+   overlap multiplicities (code after `fix: Mpfa.discretize adds ...`). *)
+Theorem C14_split_sum :
   forall (G : lmat) (nf : nat) (ps : list part),
     Forall part_ok ps -> Forall (local_ok G) ps ->
-    Forall (fun p => takes_shortcut nf (fst p) = false) (tl ps) ->
     (forall f, (f < nf)%nat -> exists p, In p ps /\ In f (faces_in_subgrid (fst p))) ->
     forall f c, (f < nf)%nat -> assemble nf ps f c = G f c.
 Proof. exact split_sum. Qed.
-Print Assumptions C14_split_sum_partial.
+Print Assumptions C14_split_sum.
 
-(* Without that guard the statement is false of the transcribed loop: two subproblems
-   that both cover every face (each locally exact) glue to half the exact matrix. *)
-Theorem C14_split_sum_refuted :
+(* Regression witness: the loop as it was before the repair (the shortcut REPLACED the
+   accumulated sum) glues two locally exact subproblems that both cover every face to half
+   the exact matrix. *)
+Theorem C14_unrepaired_loop_wrong :
   exists (nf : nat) (ps : list part) (f c : nat),
     Forall part_ok ps /\ (f < nf)%nat /\
-    assemble nf ps f c <> (fun _ _ => 1) f c /\
+    assemble_unrepaired nf ps f c <> (fun _ _ => 1) f c /\
     Forall (local_ok (fun _ _ => 1)) ps.
 Proof. exact shortcut_overwrites. Qed.
-Print Assumptions C14_split_sum_refuted.
+Print Assumptions C14_unrepaired_loop_wrong.
 
 (* Partial update: the rows of the targeted (active) faces equal the rows of the
    one-piece discretisation; in update mode every other row keeps its old value, in
@@ -63,11 +63,10 @@ Proof. exact reps_hits. Qed.
 Print Assumptions C14_repetition_count.
 
 (* the boolean certificate [family_ok] that Coq evaluates on every real family of
-   subproblems (tie) implies the structural hypotheses of C14_split_sum_partial *)
+   subproblems (tie) implies the structural hypotheses of C14_split_sum *)
 Theorem C14_certificate_sound :
   forall (nf : nat) (ps : list part), family_ok nf (map fst ps) = true ->
     Forall part_ok ps /\
-    Forall (fun p => takes_shortcut nf (fst p) = false) (tl ps) /\
     (forall f, (f < nf)%nat -> exists p, In p ps /\ In f (faces_in_subgrid (fst p))).
 Proof. exact family_ok_sound. Qed.
 Print Assumptions C14_certificate_sound.
